@@ -1,5 +1,5 @@
 //@ unit find
-//@ serves C07 C02
+//@ serves C07 C14 C02
 //@ include prelude/header.rs
 use vstd::std_specs::iter::IteratorSpec;
 verus! {
@@ -216,6 +216,23 @@ pub open spec fn walk(v: VId, s: Seq<&ScalarCow>) -> Option<VId>
         r is None ==> walk(value.vid_of(), path@.map_values(|k: ScalarCow| &k)) is None,                       // [C07:missing_step_is_none_not_a_neighbour]
 //@ ghost after re<<let (\w+) = (\w+)\.iter\(\);>>
     proof { assert(\1.remaining() =~= \2@.map_values(|k: ScalarCow| &k)); }
+//@ end
+
+// ---------------- property access of the array filters (sort / where / map by property) ----------------
+//@ item crates/lib/src/stdlib/filters/array.rs :: fn safe_property_getter
+//@ props C14 C02
+//@ sig fn safe_property_getter<'a>(value: &'a Value, property: &str) -> (r: &'a dyn ValueView)
+//@ spec
+    ensures
+        // the member when the value is an object that has the property, nil otherwise (never a failure)
+        r.vid_of() == (match vid_members(value.vid()) {
+            Some(m) => if m.dom().contains(property@) { m[property@] } else { nil_vid() },
+            None => nil_vid(),
+        }),                                                                              // [C14:missing_property_reads_as_nil]
+//@ closure 0 arg_of=and_then params=obj
+|obj: &'a dyn ObjectView| -> (o: Option<&'a dyn ValueView>)
+    ensures !obj_members(obj).dom().contains(property@) ==> o is None,
+            obj_members(obj).dom().contains(property@) ==> (o matches Some(v) && v.vid_of() == obj_members(obj)[property@])
 //@ end
 
 //@ item crates/core/src/model/find.rs :: fn find
